@@ -155,6 +155,29 @@ impl CountMinSketch {
     }
 }
 
+#[cfg(transparencies_stretto_verif)]
+impl CountMinRow {
+    pub(crate) fn verif_bytes(&self) -> &[u8] {
+        &self.0
+    }
+}
+
+#[cfg(transparencies_stretto_verif)]
+impl CountMinSketch {
+    pub(crate) fn verif_seeds(&self) -> [u64; DEPTH] {
+        self.seeds
+    }
+    pub(crate) fn verif_set_seeds(&mut self, s: [u64; DEPTH]) {
+        self.seeds = s;
+    }
+    pub(crate) fn verif_mask(&self) -> u64 {
+        self.mask
+    }
+    pub(crate) fn verif_rows(&self) -> Vec<Vec<u8>> {
+        self.rows.iter().map(|r| r.0.clone()).collect()
+    }
+}
+
 #[cfg(test)]
 mod test {
     use super::*;
